@@ -207,6 +207,30 @@ def reader_entries(ctx) -> dict[str, FuncInfo]:
     return out
 
 
+def block_decoder(ctx, version: str, position: int) -> Optional[FuncInfo]:
+    """the function whose result becomes the table the reader entry returns at `position` (0: atoms, 1: bonds)"""
+    key = ("block_decoder", version, position)
+    if key in ctx.cache:
+        return ctx.cache[key]
+    ent = reader_entries(ctx)[version]
+    fn = ent.node
+    out = None
+    rets = [r for r in own_walk(fn) if isinstance(r, ast.Return) and isinstance(r.value, ast.Tuple) and len(r.value.elts) == 2 and isinstance(r.value.elts[position], ast.Name)]
+    names = {r.value.elts[position].id for r in rets}
+    if len(names) == 1:
+        var = names.pop()
+        for st in own_walk(fn):
+            if isinstance(st, ast.Assign) and isinstance(st.value, ast.Call):
+                tg = st.targets[0]
+                hit = (isinstance(tg, ast.Name) and tg.id == var) or (isinstance(tg, ast.Tuple) and tg.elts and isinstance(tg.elts[0], ast.Name) and tg.elts[0].id == var)
+                if hit:
+                    cs = ctx.cg.resolve_call(ent, st.value, ctx.cg.local_types(ent), set(params_of(fn)))
+                    if cs.kind == "tucan":
+                        out = cs.target
+    ctx.cache[key] = out
+    return out
+
+
 def analyse_reader(ctx, version: str):
     key = ("reader_analysis", version)
     if key not in ctx.cache:
@@ -805,9 +829,14 @@ def _check_v2000_counts(ctx, fi: FuncInfo, res: RuleResult):
     if len(blocks) < 3:
         raise AnalysisError("R-COLS: V2000 entry no longer slices the line list into atom / bond / property blocks")
     want = {"atom": (4, 4 + A), "bond": (4 + A, 4 + A + B)}
+    dec_a, dec_b = block_decoder(ctx, "V2000", 0), block_decoder(ctx, "V2000", 1)
     for f, lo, hi in blocks:
         callee = f.name
-        role = "atom" if "atom" in callee and "bond" not in callee else "bond" if "bond" in callee else "prop"
+        if dec_a is not None and dec_b is not None:
+            role = "atom" if f.fq == dec_a.fq or f.fq in ctx.cg.closure([dec_a.fq]) and f.fq not in ctx.cg.closure([dec_b.fq]) else \
+                "bond" if f.fq == dec_b.fq or f.fq in ctx.cg.closure([dec_b.fq]) and f.fq not in ctx.cg.closure([dec_a.fq]) else "prop"
+        else:
+            role = "atom" if "atom" in callee and "bond" not in callee else "bond" if "bond" in callee else "prop"
         if role in want:
             ok = (lo, hi) == want[role]
             why = f"{role} block = lines[{lo}:{hi}] for counts (5 atoms, 7 bonds, 2 lists); format: lines[{want[role][0]}:{want[role][1]}]"
@@ -1394,10 +1423,14 @@ def r_ordering(ctx) -> RuleResult:
         return False
     bond_calls, val_nodes = [], []
     bond_var = None
+    # the bond table: what the entry returns second (atoms, bonds), wherever it is decoded
+    rets_ = [r for r in own_walk(fn) if isinstance(r, ast.Return) and isinstance(r.value, ast.Tuple) and len(r.value.elts) == 2 and isinstance(r.value.elts[1], ast.Name)]
+    ret_bond = rets_[0].value.elts[1].id if rets_ and len({r.value.elts[1].id for r in rets_}) == 1 else None
     for st in own_walk(fn):
         if isinstance(st, ast.Assign) and isinstance(st.value, ast.Call):
             cs = ctx.cg.resolve_call(v3, st.value, ctx.cg.local_types(v3), set(params_of(fn)))
-            if cs.kind == "tucan" and "bond" in cs.target.name and "valid" not in cs.target.name and isinstance(st.targets[0], ast.Name):
+            if cs.kind == "tucan" and isinstance(st.targets[0], ast.Name) and \
+                    (st.targets[0].id == ret_bond if ret_bond is not None else ("bond" in cs.target.name and "valid" not in cs.target.name)):
                 bond_calls.append(st.value)
                 bond_var = st.targets[0].id
     if not bond_calls:
@@ -1433,22 +1466,9 @@ def r_ordering(ctx) -> RuleResult:
     return res
 
 
-def _check_parser_validation(ctx, res: RuleResult):
-    """TUCAN parser: every index parsed from the string is checked against the atoms of the formula before it is used as a
-    subscript and before the graph is built.  The listener's to_graph is flattened (calls of its own methods that are
-    statements are replaced by the callee's statements) and read in execution order."""
-    repo = ctx.repo
-    par = repo.module("tucan.parser.parser")
-    lis = None
-    for ci in par.classes.values():
-        if any(b.endswith("tucanListener") for b in repo.base_names(ci)):
-            lis = ci
-    if lis is None:
-        raise AnalysisError("listener implementation vanished")
-    tg = repo.mro_method(lis, "to_graph")
-    if tg is None:
-        raise AnalysisError("listener.to_graph vanished")
-    # ---- listener fields that hold parsed indices: self.F.append((int(..) - 1, ..)) / self.F.setdefault(int(..) - 1, ..) / self.F[k] = ..
+def listener_index_fields(ctx, lis) -> dict:
+    """listener fields that hold indices parsed from the string, by how they are filled:
+    self.F.append((int(..) - 1, int(..) - 1)) -> 'pairs' (bond endpoints);  self.F.setdefault(int(..) - 1, ..) / self.F[k] = .. -> 'keys'"""
     fields: dict[str, str] = {}
 
     def parsed_number(e, f) -> bool:
@@ -1485,7 +1505,26 @@ def _check_parser_validation(ctx, res: RuleResult):
                     and isinstance(n.targets[0].value.value, ast.Name) and n.targets[0].value.value.id == "self" and parsed_number(n.targets[0].slice, m):
                 fields.setdefault(n.targets[0].value.attr, "keys")
     if "pairs" not in fields.values() or "keys" not in fields.values():
-        raise AnalysisError(f"R-ORDERING: cannot find the listener fields that hold parsed bond endpoints and attribute indices (found {fields})")
+        raise AnalysisError(f"cannot find the listener fields that hold parsed bond endpoints and attribute indices (found {fields})")
+    return fields
+
+
+def _check_parser_validation(ctx, res: RuleResult):
+    """TUCAN parser: every index parsed from the string is checked against the atoms of the formula before it is used as a
+    subscript and before the graph is built.  The listener's to_graph is flattened (calls of its own methods that are
+    statements are replaced by the callee's statements) and read in execution order."""
+    repo = ctx.repo
+    par = repo.module("tucan.parser.parser")
+    lis = None
+    for ci in par.classes.values():
+        if any(b.endswith("tucanListener") for b in repo.base_names(ci)):
+            lis = ci
+    if lis is None:
+        raise AnalysisError("listener implementation vanished")
+    tg = repo.mro_method(lis, "to_graph")
+    if tg is None:
+        raise AnalysisError("listener.to_graph vanished")
+    fields = listener_index_fields(ctx, lis)
     # ---- validators: methods (self, index) that raise exactly when index >= number of atoms
     from ..concrete import run_outcome
     validators = {}
@@ -1699,8 +1738,9 @@ def r_indexspace(ctx) -> RuleResult:
     # file order
     for ver in ("V3000", "V2000"):
         f0 = reader_entries(ctx)[ver]
+        dec = block_decoder(ctx, ver, 0)
         for f in [ctx.cg.funcs[q] for q in ctx.cg.closure([f0.fq])]:
-            if "atom" not in f.name or "block" not in f.name:
+            if (f.fq != dec.fq) if dec is not None else ("atom" not in f.name or "block" not in f.name):
                 continue
             loops = [n for n in own_walk(f.node) if isinstance(n, (ast.For, ast.DictComp, ast.ListComp))]
             for lp in loops:
